@@ -60,6 +60,8 @@ def check(res, tr, c09=False):
                         % e[3][-500:])
         else:
             res.ev("diag_reactor_event_raised_" + e[2])
+    for (where_, stack_, did_) in getattr(tr, "second_firings", ()):
+        res.ev("diag_second_firing_attempted_" + where_)  # diagnostic only, see c06
     for u in tr.unhandled:
         if u[0] == "AlreadyCalledError":
             res.violate("fired-twice/AlreadyCalledError-unhandled", "a Deferred was fired a second time: %s" % u[2])
